@@ -51,7 +51,7 @@ func (b Bars) Cut(n int) Bars {
 }
 
 // Classes of series.
-var Classes = []string{"walk", "walk", "walk", "flat", "monotone", "sawtooth", "ties", "zeros", "spikes", "decimal", "flatbars"}
+var Classes = []string{"walk", "walk", "walk", "flat", "monotone", "sawtooth", "ties", "zeros", "spikes", "decimal", "flatbars", "decimalflat", "decimalspikes"}
 
 // quantum is the grid of the dyadic classes: multiples of 1/16 with at most ~14 significant bits,
 // so that windowed sums and products of a few values are exact in float64.
@@ -68,6 +68,13 @@ func GenBars(t *rapid.T, n int) Bars {
 
 // GenBarsOf draws n bars of the given class.
 func GenBarsOf(t *rapid.T, n int, class string) Bars {
+	shape := class
+	switch class {
+	case "decimalflat":
+		shape = "flat"
+	case "decimalspikes":
+		shape = "spikes"
+	}
 	b := Bars{Class: class, Open: make([]float64, n), High: make([]float64, n), Low: make([]float64, n), Close: make([]float64, n), Volume: make([]float64, n), X: make([]float64, n), Y: make([]float64, n)}
 	if n == 0 {
 		return b
@@ -82,7 +89,7 @@ func GenBarsOf(t *rapid.T, n int, class string) Bars {
 		dir = -1
 	}
 	for i := 0; i < n; i++ {
-		switch class {
+		switch shape {
 		case "flat":
 			// long constant runs with an occasional jump
 			if rapid.IntRange(0, 7).Draw(t, "jump") == 0 {
@@ -152,7 +159,7 @@ func GenBarsOf(t *rapid.T, n int, class string) Bars {
 		b.Volume[i] = float64(v)
 		// free numeric series: zeros, negatives, ties
 		x := rapid.IntRange(-400, 400).Draw(t, "x")
-		switch class {
+		switch shape {
 		case "zeros":
 			if rapid.IntRange(0, 2).Draw(t, "xz") == 0 {
 				x = 0
@@ -171,7 +178,7 @@ func GenBarsOf(t *rapid.T, n int, class string) Bars {
 		b.X[i] = q(x)
 		b.Y[i] = q(rapid.IntRange(-400, 400).Draw(t, "y"))
 	}
-	if class == "decimal" {
+	if class == "decimal" || class == "decimalflat" || class == "decimalspikes" {
 		// what a CSV download looks like: two-decimal prices, not exactly representable
 		for i := 0; i < n; i++ {
 			r := func(v float64) float64 { return math.Round(v*100*1.37) / 100 }
